@@ -213,5 +213,5 @@ def r5(ctx):
 @rule("C04", "R6", "FLOW", "labels lie in [0, K): kernel provenance and repopulation's recipient ids")
 def r6(ctx):
     from . import c01
-    c01.r8(ctx)
-    c01.r1(ctx)   # the back-pointer table must be able to hold every label it stores
+    ctx.sub(c01.r8)
+    ctx.sub(c01.r1)   # the back-pointer table must be able to hold every label it stores
